@@ -155,19 +155,25 @@ private def pkt5 : Bytes := [0x47, 0x00, 0x05, 0x10] ++ List.replicate 184 0
 /-- a 188-byte packet on PID 1 (whose `exSem` handler queues changes) -/
 private def pkt1 : Bytes := [0x47, 0x00, 0x01, 0x10] ++ List.replicate 184 0
 
-example : pkt5.length = 188 := by simp [pkt5]
+private theorem pkt5_len : pkt5.length = 188 := by
+  unfold pkt5; rw [List.length_append, List.length_replicate]; rfl
+private theorem pkt1_len : pkt1.length = 188 := by
+  unfold pkt1; rw [List.length_append, List.length_replicate]; rfl
 
 example : (frame (pkt5 ++ pkt1) 0).isOk = true := frame_isOk _ _
 
 /-- the hypothesis of `chunking_irrelevant` is satisfiable with empty, single-packet and
 multi-packet buffers -/
-example : ∀ c ∈ [[], pkt5, [], pkt1 ++ pkt5, pkt1], c.length % 188 = 0 := by
-  simp [pkt5, pkt1]
+private theorem ex_aligned : ∀ c ∈ [[], pkt5, [], pkt1 ++ pkt5, pkt1], c.length % 188 = 0 := by
+  intro c hc
+  simp only [List.mem_cons, List.not_mem_nil, or_false] at hc
+  rcases hc with e | e | e | e | e <;> subst e <;>
+    simp only [List.length_append, pkt5_len, pkt1_len, List.length_nil]
 
 example : pushAll exSem ([], []) [[], pkt5, [], pkt1 ++ pkt5, pkt1] 0
     = push exSem ([], []) (pkt5 ++ pkt1 ++ pkt5 ++ pkt1) 0 := by
-  have := chunking_irrelevant exSem ([], []) [[], pkt5, [], pkt1 ++ pkt5, pkt1] 0
-    (by simp [pkt5, pkt1])
-  simpa using this
+  have := chunking_irrelevant exSem ([], []) [[], pkt5, [], pkt1 ++ pkt5, pkt1] 0 ex_aligned
+  rw [this]
+  simp only [List.flatten_cons, List.flatten_nil, List.nil_append, List.append_nil, List.append_assoc]
 
 end Ts.Props.C07
